@@ -1,28 +1,36 @@
 (* C04 — Lines fit the width, are greedily filled, and truncation is honoured.  Property theorems only.
    Proved for every input: soundness of the fit classification, the truncation bookkeeping of postProcessLine,
    truncation_lines (TruncateAfterLines = k >= 1: at most k lines over any number of WrapNextLine calls with any widths, and
-   from WrapParagraph), width_bound_partial (Proofs/WrapWidth.v) and, for BreakPolicy Never, width_bound_never_partial and
-   greedy_partial (Proofs/WrapGreedy.v).
-   width_bound_partial: for every WrapNextLine call from a state reached by Prepare + any calls, whose entry store has
-   non-negative advances / letter spacing (the property's sign hypothesis) and input runs with Advance = sum of their glyph
-   advances (excludes F6), the returned line measured by Spec/Wrap.v line_measure ON THE RETURNED STORE is within maxWidth,
-   or holds no UAX #14 opportunity at a cluster boundary strictly inside (recorded under cannotFit); when the truncator was
-   appended the text is empty or within maxWidth - ceil(truncator advance) - the former exception "whole-run prefix on the
-   truncated line" (finding F8) is gone since the library fix 5102a36, which the model follows.
-   What keeps width_bound "_partial": (1) hypothesis adv_consistent on the call's entry store (F6; same guard as Check/C04.v);
-   (2) for policies other than Never, hypothesis WI (the UAX #14 iterator has not consumed a valid line boundary beyond the
-   line start: true after Prepare, broken exactly by the dropped candidate of F37) and the exception proved is "no valid
-   UAX #14 opportunity strictly inside the line", weaker than the property's "single grapheme cluster" (the gap is the
-   grapheme iterator's skipping rule, F7).
-   Under BreakPolicy Never the grapheme fallback is never entered: WI is an invariant of every call (run_calls_never), so
-   width_bound_never_partial has no iterator hypothesis and its exception is exactly the property's single unbreakable
-   unit (Spec/Wrap.v single_unit), and greedy_partial states the greedy clause: a line returned with the wrapper still
-   live ends at a mandatory break / at the first option of a unit that cannot fit, or the next valid UAX #14 opportunity
-   after it was tried and the line extended to it measures more than maxWidth (Spec/Wrap.v line_measure of the exact pieces
-   on the call's entry store, i.e. before the start letter spacing of the first glyph is trimmed).
-   The greedy clause for policies WhenNecessary / Always is FALSE of the faithful model (Findings/Wrap.v: greedy_refuted,
-   F7) and stays with the oracle greedy_ok. *)
-From TV Require Import Model.Wrap Spec.Wrap Spec.WrapGreedy Proofs.Wrap Proofs.WrapLines Proofs.WrapTrunc Proofs.WrapWidth Proofs.WrapGreedy.
+   from WrapParagraph), width_bound (Proofs/WrapWidth.v + Proofs/WrapValid.v) for EVERY break policy and, for
+   BreakPolicy Never, greedy_partial (Proofs/WrapGreedy.v).
+   width_bound (FULL: the width clause of the property): for every WrapNextLine call from a state reached by Prepare + any
+   calls, whose entry store has non-negative advances / letter spacing (the property's sign hypothesis; nothing is assumed
+   of the input runs' own Advance fields), the returned line measured by Spec/Wrap.v line_measure ON THE RETURNED STORE is
+   within maxWidth, or is a single unbreakable unit exactly as the oracle evaluates it (Spec/Wrap.v single_unit with the
+   call's policy: no position strictly inside is a UAX #14 opportunity - or, for policies other than Never, a grapheme
+   boundary - at a cluster boundary of every run); when the truncator was appended the text is empty or within
+   maxWidth - ceil(truncator advance).
+   Three hypotheses / weakenings of earlier versions are gone with library repairs that the model follows:
+   * the iterator hypothesis WI (the UAX #14 iterator has not consumed a valid line boundary beyond the line start) - it
+     was broken by the dropped candidate of finding F37; with the fix "the grapheme fallback uses the UAX #14 option when it
+     finds no grapheme boundary" (word_fallback) it is an invariant of every call sequence (Proofs/WrapValid.v);
+   * the weaker exception "no valid UAX #14 opportunity strictly inside" for policies WhenNecessary / Always - the gap was
+     the grapheme iterator's skipping rule (finding F7: every grapheme option up to previousWordBreak is skipped, and
+     previousWordBreak advanced over UAX #14 candidates rejected as intra-cluster); with the fix "a rejected UAX #14 option
+     is discarded" (discard_word) what is skipped lies before the line start, the grapheme iterator never hands out a valid
+     grapheme boundary beyond the line start without it being tried (GI, an invariant of every call sequence:
+     Proofs/WrapValid.v), and an over-wide line holds no valid grapheme boundary either;
+   * the guard adv_consistent on the call's entry store (finding F6: input runs edited through aliases by an earlier call
+     kept a stale Advance, which a run placed whole carried onto the line) - with the fix "a run placed whole has its
+     advance recomputed from its glyphs" (fillUntil, single-run fast path) the wrapper never reads the input Advance.
+   greedy_partial states the greedy clause under BreakPolicy Never (no guard on the input Advance either): a line returned
+   with the wrapper still live ends at a mandatory break / at the first option of a unit that cannot fit, or the next valid
+   UAX #14 opportunity after it was tried and the line extended to it measures more than maxWidth (Spec/Wrap.v line_measure
+   of the exact pieces on the call's entry store, i.e. before the start letter spacing of the first glyph is trimmed).
+   The greedy clause for policies WhenNecessary / Always is not proved (no longer refuted: the former witness of F7 is a
+   regression record in Findings/Wrap.v) and stays with the oracle greedy_ok. *)
+From TV Require Import Model.Wrap Spec.Wrap Spec.WrapGreedy Proofs.Wrap Proofs.WrapLines Proofs.WrapTrunc Proofs.WrapWidth Proofs.WrapGreedy
+  Proofs.WrapValid.
 
 (* Whenever processBreakOption classifies a candidate, the classification agrees with the measured width
    (advanceSpaceAware of the candidate + advance of the runs already on the line, rounded up): fits / endLine
@@ -56,7 +64,8 @@ Proof. vm_compute. eexists _, _. split; reflexivity. Qed.
 
 (* truncation_lines: Prepare with TruncateAfterLines = k >= 1 on any contiguous run list covering [0,n), n >= 1, followed
    by ANY number of WrapNextLine calls with ANY widths: at most k of the calls return a (non-nil) line.  (nlines counts
-   the results whose line is not nil; nil lines returned while live — finding F37 — still consume the counter.) *)
+   the results whose line is not nil; since the repair of finding F37 no call returns a nil line while live:
+   Props/C03.v mandatory_break_ends_line.) *)
 Theorem truncation_lines : forall n w cfg attrs runs widths w' rs,
   runs_ok runs n -> zlen attrs - 1 = n -> 1 <= n -> 1 <= c_trunc cfg ->
   run_calls (prepare w cfg attrs runs 0 0) widths = Ok (w', rs) ->
@@ -82,26 +91,27 @@ Proof. split; [split; [reflexivity|repeat constructor]|]. split; [cbn; lia|]. vm
 
 (* ---- width_bound (Proofs/WrapWidth.v) ----------------------------------------------------------------------------- *)
 
-(* width_bound (partial): Prepare on well-formed runs, ANY sequence of WrapNextLine calls with any widths reaching a live
-   state wk, then one more call with maxWidth mw that returns a non-nil line.  Hypotheses on the entry state of that call:
-   the truncator's glyph array lies after the runs' arrays; nonneg_adv (sign hypothesis of the property); adv_consistent
-   (input runs still carry Advance = sum: excludes the aliasing of F6, as the oracle does); WI (no valid UAX #14 boundary
-   beyond the line start was consumed: holds after Prepare, broken by the nil line of F37).  Conclusion
+(* width_bound (full): Prepare on well-formed runs with ANY policy, ANY sequence of WrapNextLine calls with any widths
+   reaching a live state wk, then one more call with maxWidth mw that returns a non-nil line.  Hypotheses on the entry
+   state of that call: the truncator's glyph array lies after the runs' arrays; nonneg_adv (sign hypothesis of the
+   property).  No iterator hypothesis (WI and GI are invariants since the repairs of F37 and F7) and no hypothesis on the
+   input runs' Advance (never read since the repair of F6).  Conclusion
    (width_bound_stmt), with m = ceil(line_measure on the RETURNED store), s = line start, e = NextLine:
    * truncator appended:  s = e (no text)  or  m <= mw - ceil(truncator advance): text + truncator fit maxWidth (the
      F8 exception of earlier versions is gone with the library fix 5102a36);
-   * otherwise:  m <= mw  or  no position strictly inside (s, e) is a UAX #14 opportunity at a cluster boundary of every
-     run (under policy Never this is exactly "single unbreakable unit": Spec/Wrap.v single_unit). *)
-Theorem width_bound_partial : forall n w cfg attrs runs widths wk rs mw w' wl d line,
+   * otherwise:  m <= mw  or  single_unit attrs (entry store) runs n policy s e = true, the property's "single
+     unbreakable unit" exactly as the oracle width_ok evaluates it: no position strictly inside (s, e) is a UAX #14
+     opportunity - or, for policies other than Never, a grapheme boundary - at a cluster boundary of every run. *)
+Theorem width_bound : forall n w cfg attrs runs widths wk rs mw w' wl d line,
   wf_runs (w_st w) runs n = true -> zlen attrs - 1 = n -> 1 <= n ->
   run_calls (prepare w cfg attrs runs 0 0) widths = Ok (wk, rs) -> w_more wk = true ->
   zlen runs <= o_src (c_truncator (w_cfg wk)) ->
-  nonneg_adv (w_st wk) = true -> adv_consistent (w_st wk) runs = true -> WI attrs wk ->
+  nonneg_adv (w_st wk) = true ->
   wrap_next_line wk mw = Ok (w', wl, d) -> wl_line wl = Some line ->
   width_bound_stmt attrs n runs (w_st wk) (w_st w') (o_src (c_truncator (w_cfg wk))) (c_dir (w_cfg wk))
-                   (o_adv (c_truncator (w_cfg wk))) (w_start wk) (wl_next wl) mw line.
-Proof. exact width_bound_calls. Qed.
-Print Assumptions width_bound_partial.
+                   (o_adv (c_truncator (w_cfg wk))) (c_policy (w_cfg wk)) (w_start wk) (wl_next wl) mw line.
+Proof. exact width_bound_calls_all. Qed.
+Print Assumptions width_bound.
 
 (* the width measured for a candidate bounds the declarative measure of the candidate line on the same store, whenever
    the recorded advance of the collected runs bounds the sum of their glyph advances (WA, kept by processBreakOption:
@@ -112,13 +122,15 @@ Theorem candidate_width_bounds_measure : forall w cand,
 Proof. exact cand_meas. Qed.
 Print Assumptions candidate_width_bounds_measure.
 
-(* under BreakPolicy Never (policy 1) the exception disjunct of width_bound_stmt is exactly the property's "single unbreakable
-   unit" as the oracle evaluates it (Spec/Wrap.v single_unit used by check_width_truncation) *)
-Theorem width_exception_is_single_unit_never : forall attrs st rs n s e, e <= n ->
-  (forall p, s < p < e -> line_boundary attrs p = true -> cluster_boundary st rs p = true -> False) ->
-  single_unit attrs st rs n 1 s e = true.
-Proof. exact never_single_unit. Qed.
-Print Assumptions width_exception_is_single_unit_never.
+(* the exception disjunct of width_bound_stmt, single_unit as the oracle evaluates it (Spec/Wrap.v single_unit used by
+   check_width_truncation), read as a statement about positions, for every policy: it holds as soon as no position strictly
+   inside is a UAX #14 opportunity - or a grapheme boundary when the policy is not Never - at a cluster boundary of every run *)
+Theorem width_exception_is_single_unit : forall attrs st rs n policy s e, e <= n ->
+  (forall p, s < p < e -> (line_boundary attrs p = true \/ (policy <> 1 /\ grapheme_boundary attrs p = true)) ->
+             cluster_boundary st rs p = true -> False) ->
+  single_unit attrs st rs n policy s e = true.
+Proof. exact any_single_unit. Qed.
+Print Assumptions width_exception_is_single_unit.
 
 (* non-vacuity: "a SP b" + "c" (the space has zero Width): every hypothesis holds on the first call; at maxWidth 1 the line
    [0,2) = "a SP" is returned and measures 1 (the trailing space is not counted); at maxWidth 0 the line [0,1) measures
@@ -129,7 +141,7 @@ Example width_bound_example :
   let cfg := mkCfg 0 0 (mkOut 0 0 0 0 2 0 0 0) false 0 false in
   let attrs := [4; 4; 5; 4; 7] in
   let wk := prepare (w_zero st) cfg attrs runs 0 0 in
-  wf_runs st runs 4 = true /\ nonneg_adv st = true /\ adv_consistent st runs = true /\ zlen runs <= 2 /\ WI attrs wk
+  wf_runs st runs 4 = true /\ nonneg_adv st = true /\ adv_consistent st runs = true /\ zlen runs <= 2
   /\ run_calls wk [] = Ok (wk, []) /\ w_more wk = true
   /\ (exists w' l, wrap_next_line wk 1 = Ok (w', mkWrapped (Some l) 0 2, false) /\ has_truncator 2 l = false
          /\ ceil26 (line_measure (w_st w') 2 0 l) = 1)
@@ -137,7 +149,28 @@ Example width_bound_example :
          /\ ceil26 (line_measure (w_st w') 2 0 l) = 1).
 Proof.
   cbv zeta. split; [vm_compute; reflexivity|]. split; [vm_compute; reflexivity|]. split; [vm_compute; reflexivity|].
-  split; [vm_compute; discriminate|]. split; [apply WI_prepare|]. split; [reflexivity|]. split; [reflexivity|].
+  split; [vm_compute; discriminate|]. split; [reflexivity|]. split; [reflexivity|].
+  split; vm_compute; eexists _, _; repeat split; reflexivity.
+Qed.
+
+(* regression of finding F7 on the model, policy WhenNecessary: runes a b c d SP e f, clusters a, b, c, "d SP e", f, maxWidth 2:
+   the calls return [0,2) "a b", [2,6) "c" + the cluster (2 px), [6,7) "f" (before the repair the first line was [0,6), 4 px);
+   at maxWidth 0 the first line [0,1) measures 1 > 0 and is
+   a single unit under policy WhenNecessary (no line or grapheme boundary at a cluster boundary strictly inside) *)
+Example width_bound_f7_example :
+  let st := [[mkGlyph 0 1 1 64 64 0 0 0; mkGlyph 1 1 1 64 64 0 0 0; mkGlyph 2 1 1 64 64 0 0 0; mkGlyph 3 3 1 64 64 0 0 0;
+              mkGlyph 6 1 1 64 64 0 0 0]; []] in
+  let runs := [mkOut 320 0 0 7 0 0 5 0] in
+  let cfg := mkCfg 0 0 (mkOut 0 0 0 0 1 0 0 0) false 0 false in
+  let attrs := [4; 4; 4; 4; 4; 5; 4; 7] in
+  let wk := prepare (w_zero st) cfg attrs runs 0 0 in
+  wf_runs st runs 7 = true /\ nonneg_adv st = true /\ adv_consistent st runs = true
+  /\ (exists w' rs, run_calls wk [2; 2; 2] = Ok (w', rs)
+        /\ map (fun x => (wl_next (fst x), snd x)) rs = [(2, false); (6, false); (7, true)])
+  /\ (exists w' l, wrap_next_line wk 0 = Ok (w', mkWrapped (Some l) 0 1, false)
+        /\ ceil26 (line_measure (w_st w') 1 0 l) = 1 /\ single_unit attrs st runs 7 0 0 1 = true).
+Proof.
+  cbv zeta. split; [vm_compute; reflexivity|]. split; [vm_compute; reflexivity|]. split; [vm_compute; reflexivity|].
   split; vm_compute; eexists _, _; repeat split; reflexivity.
 Qed.
 
@@ -145,23 +178,23 @@ Qed.
 
 (* width_bound for BreakPolicy Never, without the iterator hypothesis: Prepare on well-formed runs with policy Never, ANY
    sequence of WrapNextLine calls with any widths reaching a live state wk, one more call with maxWidth mw returning a
-   non-nil line.  Hypotheses on the entry store of that call: nonneg_adv (the property's sign hypothesis), adv_consistent
-   (excludes the aliasing of F6, as the oracle does) and the truncator's glyph array after the runs' arrays.  With
+   non-nil line.  Hypotheses on the entry store of that call: nonneg_adv (the property's sign hypothesis) and the
+   truncator's glyph array after the runs' arrays.  With
    m = ceil(line_measure on the RETURNED store): truncator appended -> no text or m <= mw - ceil(truncator advance);
    otherwise m <= mw or the line is a single unbreakable unit exactly as the oracle evaluates it (Spec/Wrap.v single_unit
-   with policy 1).  "_partial" only because of the adv_consistent guard (F6). *)
-Theorem width_bound_never_partial : forall n w cfg attrs runs widths wk rs mw w' wl d line,
+   with policy 1).  The special case of width_bound for policy Never, kept from earlier versions. *)
+Theorem width_bound_never : forall n w cfg attrs runs widths wk rs mw w' wl d line,
   wf_runs (w_st w) runs n = true -> zlen attrs - 1 = n -> 1 <= n -> c_policy cfg = 1 ->
   run_calls (prepare w cfg attrs runs 0 0) widths = Ok (wk, rs) -> w_more wk = true ->
   zlen runs <= o_src (c_truncator (w_cfg wk)) ->
-  nonneg_adv (w_st wk) = true -> adv_consistent (w_st wk) runs = true ->
+  nonneg_adv (w_st wk) = true ->
   wrap_next_line wk mw = Ok (w', wl, d) -> wl_line wl = Some line ->
   let tsrc := o_src (c_truncator (w_cfg wk)) in
   let m := ceil26 (line_measure (w_st w') tsrc (c_dir (w_cfg wk)) line) in
   (has_truncator tsrc line = true -> w_start wk = wl_next wl \/ m <= mw - ceil26 (o_adv (c_truncator (w_cfg wk))))
   /\ (has_truncator tsrc line = false -> m <= mw \/ single_unit attrs (w_st wk) runs n 1 (w_start wk) (wl_next wl) = true).
 Proof. exact width_bound_never_calls. Qed.
-Print Assumptions width_bound_never_partial.
+Print Assumptions width_bound_never.
 
 (* greedy (partial: BreakPolicy Never; measure on the entry store).  Same quantification: Prepare with policy Never on
    well-formed runs, ANY calls with any widths to a live state wk, one more call with maxWidth mw that leaves the wrapper
@@ -174,12 +207,13 @@ Print Assumptions width_bound_never_partial.
      as the exact pieces of the input runs (piece_ok) measure more than mw by Spec/Wrap.v line_measure on the call's
      entry store (extended_line_too_wide).
    A line returned with done = true ends the text or is the truncated line.  Missing for the full clause: policies
-   WhenNecessary / Always (refuted in general: F7), and the measure is taken before the wrapper trims the start letter
-   spacing of the first glyph of the line (equal to the wrapper's own measure when no letter spacing is applied). *)
+   WhenNecessary / Always (not proved; no longer refuted since the repair of F7), and the measure is taken before the
+   wrapper trims the start letter spacing of the first glyph of the line (equal to the wrapper's own measure when no letter
+   spacing is applied).  No hypothesis on the input runs' Advance (repair of F6). *)
 Theorem greedy_partial : forall n w cfg attrs runs widths wk rs mw w' wl,
   wf_runs (w_st w) runs n = true -> zlen attrs - 1 = n -> 1 <= n -> c_policy cfg = 1 ->
   run_calls (prepare w cfg attrs runs 0 0) widths = Ok (wk, rs) -> w_more wk = true ->
-  nonneg_adv (w_st wk) = true -> adv_consistent (w_st wk) runs = true ->
+  nonneg_adv (w_st wk) = true ->
   wrap_next_line wk mw = Ok (w', wl, false) ->
   (exists line, wl_line wl = Some line)
   /\ greedy_never_stmt attrs (w_st wk) runs (c_dir (w_cfg wk)) (w_start wk) (wl_next wl) mw
